@@ -127,9 +127,9 @@ def job_trace(driver_args, spec, out_name, d, desc, port=None, lin=False):
     if port:
         args += ["--port", port]
     st = harness(args, timeout=1800)
-    if driver_args[0] == "cfg-suite":
-        # the suite writes three traces: pick the one the spec validates
-        out = out + {"WireTcpTrace": ".wire.ndjson", "MemcTrace": ".cmd.ndjson", "ServerTrace": ".conn.ndjson"}.get(spec, ".cmd.ndjson")
+    if driver_args[0] == "cfg-suite" and "--conn-only" not in [str(x) for x in driver_args]:
+        # the suite writes four traces: pick the one the spec validates
+        out = out + {"WireTcpTrace": ".wire.ndjson", "MemcTrace": ".cmd.ndjson", "ServerTrace": ".conn.ndjson", "CountTrace": ".count.ndjson"}.get(spec, ".cmd.ndjson")
     if lin:
         res = conclib.lin_check(out, name=os.path.basename(d) + "-" + out_name)
     else:
@@ -206,6 +206,14 @@ def run_wire(pid, tier, seed, replay):
             cnt = (10 if pid != "C13" else 14) * n
             jobs.append((["tcp-wire", "--profile", prof, "--count", cnt, "--seed", seed * 100 + 50 + i, "--seg", "single" if quick else "all"],
                          "WireTcpTrace", "tcp-%s.ndjson" % prof, "socket streams %s" % prof, ports(1 + i)))
+    if pid in ("C11", "C12"):
+        # back-pressure on the write path: answers far beyond the socket buffers, read at once / late / in drips
+        jobs.append((["tcp-wire", "--profile", "tslow", "--count", 2 if quick else 9, "--seed", seed * 100 + 70], "WireTcpTrace", "tcp-tslow.ndjson",
+                     "socket streams with 12 MB of answers, slow readers", ports(7)))
+    if pid == "C13":
+        # an oversized frame of every opcode 0x00..0x24, requests behind it
+        jobs.append((["tcp-wire", "--profile", "toversweep", "--count", 37 if quick else 111, "--seed", seed * 100 + 71, "--seg", "few" if quick else "single"],
+                     "WireTcpTrace", "tcp-toversweep.ndjson", "oversized frame of every opcode", ports(8)))
     if pid == "C10":
         # the grid covers all 256 opcodes, split over 32 parts by opcode; quick runs 8 of them (rotating with the seed:
         # part p holds the opcodes = p mod 32, so every run has implemented, unimplemented and unassigned ones)
@@ -299,6 +307,13 @@ def run_srv(pid, tier, seed, replay):
         n = 3 if quick else 24
         for i in range(n):
             jobs.append((["tcp-conn", "--count", 2, "--seed", seed * 100 + i], "ServerTrace", "conn-%d.ndjson" % i, "connection lifecycles #%d" % i, ports(i * 2)))
+        # the memcrsd binary itself, both runtime types (the limit travels from the command line through the runtime
+        # builder to the semaphore), black-box: connection limit different from the listen backlog
+        binp = build_memcrsd()
+        for i, (rt, th, lim) in enumerate([("multi-thread", 2, 2), ("current-thread", 2, 3), ("multi-thread", 4, 1), ("current-thread", 1, 2)][:(2 if quick else 4)]):
+            jobs.append((["cfg-suite", "--conn-only", "1", "--bin", binp, "--runtime", rt, "--threads", th, "--conn-limit", lim, "--item-limit", 1024,
+                          "--count", 2 if quick else 8, "--seed", seed * 10 + i], "ServerTrace", "bin-conn-%d.ndjson" % i,
+                         "memcrsd --runtime-type %s --threads %d --connection-limit %d: connection lifecycles" % (rt, th, lim), ports(50 + i)))
         required = ["acquire", "release", "answered", "waiting", "finish", "end.idlemid", "end.idle", "end.close"]
     elif pid == "C18":
         run.add_mc("MC_Wire", "MC_Wire_cut", workers=10)
@@ -327,6 +342,9 @@ CONFIGS_QUICK = [
     dict(runtime="current-thread", threads=2, policy="random", conn=3, item=1024),
     dict(runtime="multi-thread", threads=2, policy="none", conn=3, item=1024),
     dict(runtime="multi-thread", threads=8, policy="random", conn=2, item=2048),
+    # enough slots for the counting hammer's connections to spread over the listener threads / workers
+    dict(runtime="current-thread", threads=4, policy="none", conn=8, item=2048),
+    dict(runtime="multi-thread", threads=4, policy="none", conn=8, item=1024),
 ]
 
 
@@ -375,7 +393,7 @@ def run_c20(pid, tier, seed, replay):
         if not st.get("started"):
             raise ToolError("memcrsd did not start with %s" % st.get("args"))
         out = []
-        for suffix, spec in (("cmd", "MemcTrace"), ("wire", "WireTcpTrace"), ("conn", "ServerTrace")):
+        for suffix, spec in (("cmd", "MemcTrace"), ("wire", "WireTcpTrace"), ("conn", "ServerTrace"), ("count", "CountTrace")):
             res = tlc_trace(prefix + "." + suffix + ".ndjson", spec=spec, name="c20-%d-%s" % (i, suffix))
             out.append(({"driver": "cfg-suite", "args": [str(a) for a in args], "spec": spec, "desc": "config %s %s" % (c, suffix)}, res))
         return c, st, out
@@ -386,7 +404,7 @@ def run_c20(pid, tier, seed, replay):
             for v in res.get("violations", []):
                 v["tags"] = sorted(set(v.get("tags", [])) | {"C20"})
             run.add_result(job, res)
-        run.traces += 3
+        run.traces += 4
         summaries[json.dumps(c, sort_keys=True)] = st.get("summaries", [])
     # the same programs must produce the same answers (CAS values aside) under every configuration: compared by TLC
     cmp_file = os.path.join(d, "configs.ndjson")
@@ -402,7 +420,7 @@ def run_c20(pid, tier, seed, replay):
     run.samples.append({"configurations": configs[:4]})
     run.extra["configurations"] = len(configs)
     return run.finish(ASSUME_SRV + ["C20: the memcrsd binary built from /repo is started with each command line; programs without clock control (TTL 0) plus one real-time TTL probe with margins >= 0.8 s around the 1 Hz tick"],
-                      required=["same.answers", "served", "finish"])
+                      required=["same.answers", "served", "finish", "incr.exact", "add.exactly.one"])
 
 
 def run_conc(pid, tier, seed, replay):
@@ -477,8 +495,21 @@ def run_conc(pid, tier, seed, replay):
         return job_trace(j[0], j[1], j[2], d, j[3], lin=True)
     for job, res in parallel(one, jobs, workers=10):
         absorb_lin(run, job, res)
+    if pid == "C04":
+        # the counting clauses on the memcrsd binary: 8 connections at once on the same keys, spread over the listener
+        # threads (current-thread) / workers (multi-thread); judged by CountTrace
+        binp = build_memcrsd()
+        hjobs = []
+        for i, (rt, th) in enumerate([("current-thread", 4), ("multi-thread", 4)] + ([] if quick else [("current-thread", 8), ("current-thread", 2), ("multi-thread", 2)])):
+            for k in range(1 if quick else 3):
+                hjobs.append((["cfg-suite", "--bin", binp, "--runtime", rt, "--threads", th, "--policy", "none", "--memory", "512MiB", "--conn-limit", 8,
+                               "--item-limit", 2048, "--count", 1, "--seed", seed * 10 + k, "--port", ports(60 + 3 * (i * 3 + k))], "CountTrace",
+                              "hammer-%d-%d" % (i, k), "counting hammer on memcrsd %s/%d" % (rt, th), None))
+        for job, res in parallel(lambda j: job_trace(j[0], j[1], j[2], d, j[3]), hjobs, workers=4):
+            run.add_result(job, res)
+            run.traces += 1
     run.extra["tlc_schedules_replayed"] = len(scheds)
-    return run.finish(ASSUME_CONC, required=["history.linearizable"])
+    return run.finish(ASSUME_CONC, required=["history.linearizable"] + (["incr.exact", "append.all.once", "add.exactly.one", "delete.final"] if pid == "C04" else []))
 
 
 def absorb_lin(run, job, res):
@@ -502,6 +533,8 @@ def absorb_lin(run, job, res):
                                       "name": desc["name"], "init": desc["init"]})
             continue
         tags = {"C16"} if incomplete else ({desc["kind"]} if desc["kind"] in ("C04", "C08", "C19") else {"C03"})
+        if incomplete and desc.get("kind") in ("C16", "C14"):
+            tags.add("C14")        # "eviction always terminates": these programs are stores under eviction pressure
         if not incomplete:
             tags |= set(getattr(run, "lin_tags", ()))   # the property this selection of programs was made for
         if desc.get("init") == "expired" and not incomplete:
